@@ -379,6 +379,35 @@ func c12(r *Report) {
 				}
 			}
 		}
+		// ... and nothing is accepted as "no modifier": a nil Result is returned only with an error
+		okNil := true
+		if paths, okP := blockPaths(fj.Blocks[0], 20000); okP {
+			for _, bp := range paths {
+				ret, isRet := bp[len(bp)-1].Instrs[len(bp[len(bp)-1].Instrs)-1].(*ssa.Return)
+				if !isRet || len(ret.Results) != 2 || !pathFeasible(bp) {
+					continue
+				}
+				nilRes, nilErr := false, false
+				for _, v := range retVals(ret, 0) {
+					for _, l := range resolveOnPath(v, bp) {
+						if isNilConst(l) {
+							nilRes = true
+						}
+					}
+				}
+				for _, v := range retVals(ret, 1) {
+					for _, l := range resolveOnPath(v, bp) {
+						if isNilConst(l) {
+							nilErr = true
+						}
+					}
+				}
+				if nilRes && nilErr {
+					okNil = false
+				}
+			}
+		}
+		r.Decide("path", "M/parse.FromJSON: a configuration is either parsed or rejected", okNil, "no return of (nil, nil)", "FromJSON can answer (nil, nil) (for a JSON null): a null child, a null filter modifier or a POST of null is accepted as an empty configuration instead of being rejected, and replaces the active one", fj.Pos())
 		r.Decide("path", "M/parse.FromJSON: an unknown modifier name is rejected", okUnknown, "ErrUnknownModifier on the not-found edge", "an unknown modifier name is not rejected", fj.Pos())
 	})
 
@@ -494,6 +523,68 @@ func c12(r *Report) {
 	})
 
 	r.Guard("C12.R5", "a filter applies its modifier when the condition holds and the else-branch otherwise", func() {
+		// the host condition holds only when the whole pattern was matched: inside the scan of
+		// MatchHost a `true` is returned only under a test that the pattern index has reached 0
+		if mh := w.Fn("martianurl", "MatchHost"); mh != nil && mh.Blocks != nil && len(mh.Params) == 2 {
+			r.Touch(mh)
+			isPatIdx := func(v ssa.Value) bool {
+				for _, in := range instrs(mh) {
+					switch x := in.(type) {
+					case *ssa.Lookup:
+						if isParamVal(x.X, mh.Params[1]) && (x.Index == v || sameAs(x.Index, v)) {
+							return true
+						}
+					case *ssa.IndexAddr:
+						if isParamVal(x.X, mh.Params[1]) && (x.Index == v || sameAs(x.Index, v)) {
+							return true
+						}
+					case *ssa.Index:
+						if isParamVal(x.X, mh.Params[1]) && (x.Index == v || sameAs(x.Index, v)) {
+							return true
+						}
+					}
+				}
+				return false
+			}
+			n, ok := 0, true
+			loops := natLoops(mh)
+			for _, ret := range returns(mh) {
+				inScan := false
+				for _, l := range loops {
+					if l.Head.Dominates(ret.Block()) {
+						inScan = true
+					}
+				}
+				if !inScan {
+					continue
+				}
+				for _, l := range resolveAll(ret.Results[0]) {
+					k, isK := constBool(l)
+					if !isK || !k {
+						continue
+					}
+					n++
+					consumed := false
+					for _, ce := range ctrlEdges(ret.Block()) {
+						b, isB := ce.If.Cond.(*ssa.BinOp)
+						if !isB {
+							continue
+						}
+						for _, pr := range [][2]ssa.Value{{b.X, b.Y}, {b.Y, b.X}} {
+							if kk, isKK := constInt(pr[1]); isKK && kk == 0 && isPatIdx(pr[0]) {
+								if (b.Op == token.EQL && ce.Taken) || (b.Op == token.NEQ && !ce.Taken) || (b.Op == token.LEQ && ce.Taken) || (b.Op == token.GTR && !ce.Taken) {
+									consumed = true
+								}
+							}
+						}
+					}
+					if !consumed {
+						ok = false
+					}
+				}
+			}
+			r.Decide("guard", "M/martianurl.MatchHost: a match is reported inside the scan only when the pattern is used up", n >= 1 && ok, "every `return true` in the loop is guarded by a test that the pattern index is 0", "the scan reports a match while part of the pattern is still unmatched (a wildcard that is not the leftmost label swallows the rest of the host): a host filter takes the modifier branch for hosts its pattern does not cover", mh.Pos())
+		}
 		// the method condition compares case-insensitively (a configuration may spell the method
 		// in any case, and so may a client)
 		if mm := w.Fn("method", "Matcher.matches"); mm != nil && mm.Blocks != nil {
@@ -618,22 +709,37 @@ func c12(r *Report) {
 				if !cc.IsInvoke() || cc.Method.Name() != side.mod {
 					continue
 				}
-				ld, isLd := cc.Value.(*ssa.UnOp)
-				if !isLd {
-					continue
+				// the modifier invoked: a load of the branch's field at the call, or - when the branch
+				// only selects the modifier and one call follows - a load in each arm merged by a phi
+				type use struct {
+					fa *ssa.FieldAddr
+					at *ssa.BasicBlock
 				}
-				fa, isFa := ld.X.(*ssa.FieldAddr)
-				if !isFa {
-					continue
-				}
-				for _, e := range es {
-					if fieldObj(fa) == tField && edgeDominatesTrue(e, c.Block()) {
-						okT = true
+				var uses []use
+				if ld, isLd := cc.Value.(*ssa.UnOp); isLd {
+					if fa, isFa := ld.X.(*ssa.FieldAddr); isFa {
+						uses = append(uses, use{fa, c.Block()})
 					}
-					if fieldObj(fa) == fField {
-						for k, s := range e.If.Block().Succs {
-							if s == e.False && edgeDominates(e.If.Block(), k, c.Block()) {
-								okF = true
+				}
+				if ph, isPhi := cc.Value.(*ssa.Phi); isPhi {
+					for _, e := range ph.Edges {
+						if ld, isLd := e.(*ssa.UnOp); isLd {
+							if fa, isFa := ld.X.(*ssa.FieldAddr); isFa {
+								uses = append(uses, use{fa, ld.Block()})
+							}
+						}
+					}
+				}
+				for _, u := range uses {
+					for _, e := range es {
+						if fieldObj(u.fa) == tField && edgeDominatesTrue(e, u.at) {
+							okT = true
+						}
+						if fieldObj(u.fa) == fField {
+							for k, s := range e.If.Block().Succs {
+								if s == e.False && edgeDominates(e.If.Block(), k, u.at) {
+									okF = true
+								}
 							}
 						}
 					}
